@@ -12,6 +12,12 @@ import (
 
 type loopFunc func(s *state, key string) data.Value
 
+// names under which a loop over $x keeps its index and last index in the scope.
+const (
+	loopIndexSuffix     = ".index"
+	loopLastIndexSuffix = ".lastIndex"
+)
+
 var loopFuncs = map[string]loopFunc{
 	"index":   funcIndex,
 	"isFirst": funcIsFirst,
@@ -19,16 +25,16 @@ var loopFuncs = map[string]loopFunc{
 }
 
 func funcIndex(s *state, key string) data.Value {
-	return s.context.lookup(key + "__index")
+	return s.context.lookup(key + loopIndexSuffix)
 }
 
 func funcIsFirst(s *state, key string) data.Value {
-	return data.Bool(s.context.lookup(key+"__index").(data.Int) == 0)
+	return data.Bool(s.context.lookup(key+loopIndexSuffix).(data.Int) == 0)
 }
 
 func funcIsLast(s *state, key string) data.Value {
 	return data.Bool(
-		s.context.lookup(key+"__index").(data.Int) == s.context.lookup(key+"__lastIndex").(data.Int))
+		s.context.lookup(key+loopIndexSuffix).(data.Int) == s.context.lookup(key+loopLastIndexSuffix).(data.Int))
 }
 
 // Func represents a Soy function that may be invoked within a Soy template.
